@@ -1,5 +1,6 @@
 import MythVerif.Proofs.LifeReach
 import MythVerif.Model.Attr
+import MythVerif.Basic.Tso
 /-!
 # C01 — every created thread runs exactly once and join delivers its result
 
@@ -170,3 +171,62 @@ theorem C01_pinned_attr_init_leaves_fields_unset :
   exact ⟨.customDataSize, by decide, rfl⟩
 
 end MythVerif.Attr
+
+namespace MythVerif.Tso
+
+/-- **every write of the thread is visible to the joiner, under x86-TSO store buffering.**
+    The finishing thread's worker `cw` issues, in program order, the thread's own memory writes
+    `writes`, then the store of the return / exit value into `result`, then the store of
+    `FREE_READY2` into `status` (`myth_entry_point_1/_2`), then anything else (the unlock, the
+    scheduler) that touches none of these locations.  While the thread is live only its worker
+    writes these locations.  Store buffers are unbounded FIFOs flushed at arbitrary moments, any
+    number of other workers run arbitrary code.  Then ANY other worker whose load of `status`
+    returns `FREE_READY2` — the join path's finished test — reads, in that state, the return value
+    from `result` and, from every location the thread wrote, the last value the thread wrote there.
+    (A joiner resumed directly by the finisher runs on the finisher's own worker, i.e. in program
+    order; a thread that migrated while running was handed over through the run queue, whose
+    hand-over is itself this message-passing pattern on `top` / `base`: C02.) -/
+theorem C01_visibility_tso (m0 : Loc → Val) (cw jw : Tid) (status result : Loc) (fr2 retv : Val)
+    (ls : List Lbl) (s : St) (writes post : List (Loc × Val))
+    (hr : runs step (init m0) ls = some s) (hne : jw ≠ cw) (hrs : result ≠ status)
+    (hok : ∀ l, (l = status ∨ l = result ∨ ∃ e ∈ writes, e.1 = l) →
+             ∀ lb ∈ ls, lb.writes l = true → lb.isStoreBy cw = true)
+    (hlog : s.done cw ++ s.buf cw = (writes ++ [(result, retv)]) ++ (status, fr2) :: post)
+    (hw : ∀ e ∈ writes, e.1 ≠ status ∧ e.1 ≠ result)
+    (hpost : ∀ e ∈ post, e.1 ≠ status ∧ e.1 ≠ result ∧ ∀ e' ∈ writes, e.1 ≠ e'.1)
+    (h0 : m0 status ≠ fr2) (hsee : view s jw status = fr2) :
+    view s jw result = retv ∧ ∀ e ∈ writes, view s jw e.1 = applyStores m0 writes e.1 := by
+  have hdata : ∀ e ∈ writes ++ [(result, retv)], e.1 ≠ status := by
+    intro e he
+    simp only [List.mem_append, List.mem_singleton] at he
+    rcases he with he | he
+    · exact (hw e he).1
+    · subst he; exact hrs
+  refine ⟨?_, ?_⟩
+  · have := (message_passing m0 cw jw status result fr2 ls s (writes ++ [(result, retv)]) post hr hne hrs
+      (hok status (Or.inl rfl)) (hok result (Or.inr (Or.inl rfl))) hlog hdata
+      (fun e he => ⟨(hpost e he).1, (hpost e he).2.1⟩) h0 hsee).1
+    rw [this, applyStores_append]
+    simp [applyStores, upd]
+  · intro e he
+    have hes : e.1 ≠ status := (hw e he).1
+    have := (message_passing m0 cw jw status e.1 fr2 ls s (writes ++ [(result, retv)]) post hr hne hes
+      (hok status (Or.inl rfl)) (hok e.1 (Or.inr (Or.inr ⟨e, he, rfl⟩))) hlog hdata
+      (fun e' he' => ⟨(hpost e' he').1, (hpost e' he').2.2 e he⟩) h0 hsee).1
+    rw [this, applyStores_append]
+    simp only [applyStores]
+    simp [upd, (hw e he).2]
+
+/-- non-vacuity: worker 1 runs the thread (writes cells 20 and 21, cell 20 twice), stores the result 77
+    into location 2 and FREE_READY2 (= 3) into location 1, then unlocks (location 0); the joiner's
+    worker 2 first sees the old status, later the new one, and then reads 77 and the final cell values;
+    worker 1's unlock store is still buffered -/
+example :
+    (runs step (init (fun _ => 0))
+      [.store 1 20 5, .store 1 21 6, .store 1 20 9, .store 1 2 77, .store 1 1 3, .store 1 0 0,
+       .flush 1, .flush 1, .load 2 1 0, .flush 1, .flush 1, .flush 1,
+       .load 2 1 3, .load 2 2 77, .load 2 20 9, .load 2 21 6]).map (fun s => (s.buf 1, s.done 1 ++ s.buf 1)) =
+      some ([(0, 0)], ([(20, 5), (21, 6), (20, 9)] ++ [(2, 77)]) ++ (1, 3) :: [(0, 0)]) := by
+  decide
+
+end MythVerif.Tso
